@@ -89,10 +89,25 @@ class FiniteEval:
         if isinstance(n, ast.Call):
             return self.call(n, env)
         if isinstance(n, ast.Subscript):
+            if isinstance(n.value, ast.Name) and n.value.id in self.lists and '__last__' in env and ast.unparse(n.slice) == '-1':
+                return env['__last__']            # the token emitted last, read back (code after the loop)
             base = self.ev(n.value, env)
+            if isinstance(base, tuple) and base and base[0] == 'tok' and isinstance(n.slice, ast.UnaryOp) and ast.unparse(n.slice) == '-1':
+                s = base[1] + '9' + base[2]
+                return s[-1]
             if isinstance(base, tuple) and base and base[0] == 'tok' and isinstance(n.slice, ast.Constant) and n.slice.value in (0, -1):
                 s = base[1] + '9' + base[2]
                 return s[n.slice.value]
+            if isinstance(base, tuple) and base and base[0] == 'tok' and isinstance(n.slice, ast.Slice) and n.slice.step is None:
+                lo = self.ev(n.slice.lower, env) if n.slice.lower is not None else None
+                hi = self.ev(n.slice.upper, env) if n.slice.upper is not None else None
+                if (lo is None or (isinstance(lo, int) and not isinstance(lo, bool) and lo >= 0)) \
+                        and (hi is None or (isinstance(hi, int) and not isinstance(hi, bool) and hi < 0)):
+                    p, sfx = base[1], base[2]
+                    if (lo or 0) > len(p) or -(hi or 0) > len(sfx):
+                        return '9'                # cuts into the digits: no longer the whole number
+                    return ('tok', p[(lo or 0):], sfx[:len(sfx) + (hi or 0)])
+                raise Unknown('slice of a token ' + ast.unparse(n))
             if isinstance(base, tuple) and base and base[0] == 'array':
                 ix = self.ev(n.slice, env)
                 return ('elem', base[1], base[2], ix)
@@ -345,6 +360,8 @@ class FiniteEval:
             if not isinstance(v, str):
                 raise Unknown('last token extended by %r' % (v,))
             self.actions.append(('suffix_last', s.target.value.id, v))
+            if '__last__' in env:
+                env['__last__'] = self.binop(ast.Add(), env['__last__'], v)
             return
         if isinstance(s, ast.Assign) and len(s.targets) == 1 and last_of_list(s.targets[0]) and isinstance(s.value, ast.BinOp) and isinstance(s.value.op, ast.Add) \
                 and last_of_list(s.value.left) and s.value.left.value.id == s.targets[0].value.id:
@@ -352,6 +369,14 @@ class FiniteEval:
             if not isinstance(v, str):
                 raise Unknown('last token extended by %r' % (v,))
             self.actions.append(('suffix_last', s.targets[0].value.id, v))
+            if '__last__' in env:
+                env['__last__'] = self.binop(ast.Add(), env['__last__'], v)
+            return
+        if isinstance(s, ast.Assign) and len(s.targets) == 1 and last_of_list(s.targets[0]) and '__last__' in env:
+            # out[-1] = f(out[-1]) after the loop: the last token is rewritten
+            v = self.ev(s.value, env)
+            self.actions.append(('replace_last', s.targets[0].value.id, v))
+            env['__last__'] = v
             return
         if isinstance(s, ast.AugAssign) and isinstance(s.target, ast.Name):
             name = s.target.id
